@@ -363,10 +363,14 @@ func checkUnlockRestoresWipedKeys(c *Ctx, rule string) {
 	}
 	c.Floor(rule, "crypto keys wiped in place by Manager.lock", len(ws), 2)
 	var derive ssa.Instruction
-	for _, ci := range callsOf(unlock) {
-		if calleeShort(ci.Common()) == "DeriveKey" {
-			if f, _, ok := recvField(ci.Common()); ok && f == "masterKeyPriv" {
-				derive = ci
+	// in Unlock, or in the private part of it that derives the master key and restores the crypto keys
+	for _, body := range p.regionTop(unlock) {
+		for _, ci := range callsOf(body) {
+			if calleeShort(ci.Common()) == "DeriveKey" && derive == nil {
+				if f, _, ok := recvField(ci.Common()); ok && f == "masterKeyPriv" {
+					derive = ci
+					unlock = body
+				}
 			}
 		}
 	}
